@@ -34,6 +34,8 @@ def run_one(name):
             results[p] = "caught (%d VIOLATION lines)" % len(viol) if (r.returncode == 1 and viol) else "MISSED (rc=%d)" % r.returncode
     finally:
         subprocess.run(["git", "-C", REPO, "worktree", "remove", "--force", wt], capture_output=True)
+        # checks regenerate these from the tree under test (C13's translator): put back the versions generated from /repo
+        subprocess.run(["git", "-C", VERIF, "checkout", "--", "coq/Model/BlasC13Gen.v", "coq/Model/BlasC13L3Gen.v"], capture_output=True)
     return name, pid, results
 
 
